@@ -123,6 +123,7 @@ class RegRequest:
     attobj_extra: Optional[dict] = None                 # members a future client might add to the attestation object
     envelope_id: Optional[bytes] = None                 # rawId (and id) of the PublicKeyCredential envelope when they are to
                                                         # differ from the attested credential id (nothing compares the two)
+    stale_same_name_anchor: Optional[str] = None       # "first" / "last": the RP's anchor list also holds the CA's previous root (same name, other key); certificates carry key identifiers
     tpm_san_extra_dnsname_first: bool = False          # a conformant variation: an additional dNSName before the directoryName
     cd_kwargs: dict = field(default_factory=dict)
 
@@ -390,9 +391,15 @@ def _credential(b: _Build, attestation_object: bytes) -> dict:
 def _chain(b: _Build, leaf_priv, **kwargs) -> ca.Chain:
     """Attestation chain whose leaf certifies `leaf_priv`'s public key; records chain and trust roots."""
     chain = b.req.reuse_chain or ca.build_chain(leaf_priv.public_key(), leaf_privkey=leaf_priv, n_intermediates=b.req.n_intermediates,
-                                                base_time=b.base_time, faults=b.chain_faults, validity=b.req.chain_validity, **kwargs)
+                                                base_time=b.base_time, faults=b.chain_faults, validity=b.req.chain_validity,
+                                                key_ids=bool(b.req.stale_same_name_anchor), **kwargs)
     b.chain = chain
     b.roots = {FMT_STRING[b.req.fmt]: [chain.root_pem()]}
+    if b.req.stale_same_name_anchor and not b.req.reuse_chain:
+        from cryptography.hazmat.primitives import serialization as _ser
+        stale = ca.stale_root_same_name(b.base_time).public_bytes(_ser.Encoding.PEM)
+        cur = b.roots[FMT_STRING[b.req.fmt]]
+        b.roots[FMT_STRING[b.req.fmt]] = [stale] + cur if b.req.stale_same_name_anchor == "first" else cur + [stale]
     return chain
 
 
